@@ -254,4 +254,151 @@ def negotiate (c : Client) (s : Server) : Result :=
         if clientAborts (maxSupported cv) v seen then .fail
         else .done { vers := v, suite := r.id, alpn, canary := seen }
 
+/-! ### session resumption across connections
+
+  `loadSession` (tls/handshake_client.go), `checkForResumption` (tls/handshake_server.go and
+  tls/handshake_server_tls13.go), ticket issue (`sendSessionTicket`, `sendSessionTickets`,
+  `readSessionTicket`, `handleNewSessionTicket`) and the client's drop-the-ticket-on-failure rule, as far as
+  they decide WHETHER a connection resumes and WHAT the client's session cache holds afterwards.
+  Ticket cryptography is abstracted: a ticket is (version, suite, index of the server key that sealed it);
+  "decrypts" = the sealing key is in the server's current key list (authenticity itself is property C31). -/
+
+/-- the content of a cached ClientSessionState / of the ticket inside it -/
+structure Sess where
+  vers : Nat
+  suite : Nat
+  key : Nat
+  deriving Repr, DecidableEq
+
+def isSHA384 (id : Nat) : Bool := cipherSuitesTLS13SHA384.contains id
+/-- `pskSuite.hash == suite.hash` on TLS 1.3 suite ids -/
+def sameHash (a b : Nat) : Bool := isSHA384 a == isSHA384 b
+
+/-- `(c *Conn) loadSession`: the cached session the client presents in this ClientHello, if any
+    (the certificate / expiry checks always pass in the harness: verified chain, fresh certificate) -/
+def loadSession (cv offer : List Nat) (useCache : Bool) (cache : Option Sess) : Option Sess :=
+  if !useCache then none else
+  match cache with
+  | none => none
+  | some se =>
+    if !cv.contains se.vers then none
+    else if se.vers != VersionTLS13 then
+      -- `mutualCipherSuite(hello.cipherSuites, session.cipherSuite)`
+      if offer.contains se.suite && (lookup implemented se.suite).isSome then some se else none
+    else
+      if !isTLS13Suite se.suite then none
+      else if offer.any (fun id => isTLS13Suite id && sameHash id se.suite) then some se else none
+
+/-- TLS ≤ 1.2 `(hs *serverHandshakeState) checkForResumption`: the resumed suite and `usedOldKey`.
+    `tkeys = none` is SessionTicketsDisabled, `some ks` the list given to SetSessionTicketKeys -/
+def checkResume12 (v : Nat) (offer : List Nat) (srvSuites : Option (List Nat)) (f : Facts)
+    (tkeys : Option (List Nat)) (presented : Option Sess) : Option (SuiteRow × Bool) :=
+  match tkeys, presented with
+  | some ks, some se =>
+    if se.vers == VersionTLS13 then none            -- a TLS 1.3 session travels as a PSK identity, the ticket extension is empty
+    else if !ks.contains se.key then none           -- decryptTicket
+    else if v != se.vers then none                  -- never resume a session for a different TLS version
+    else if !offer.contains se.suite then none      -- the client is still offering the suite
+    else
+      -- we also (still) support the suite
+      match selectCipherSuite [se.suite] (srvSuites.getD defaultCipherSuites) (cipherSuiteOk f) with
+      | none => none
+      | some r => some (r, ks.head? != some se.key)
+  | _, _ => none
+
+/-- TLS 1.3 `(hs *serverHandshakeStateTLS13) checkForResumption` for the suite already selected -/
+def checkResume13 (suite : Nat) (pskModeDHE : Bool) (tkeys : Option (List Nat)) (presented : Option Sess) : Bool :=
+  match tkeys, presented with
+  | some ks, some se =>
+    pskModeDHE && se.vers == VersionTLS13 && ks.contains se.key && isTLS13Suite se.suite && sameHash se.suite suite
+  | _, _ => false
+
+/-- one connection of a sequence: the two configurations as they are NOW -/
+structure Conn where
+  c : Client
+  s : Server
+  useCache : Bool                -- client Config.ClientSessionCache set (shared by the whole sequence)
+  tkeys : Option (List Nat)      -- server: none = SessionTicketsDisabled, some ks = SetSessionTicketKeys ks
+
+/-- what happened to the client's cache entry during the connection -/
+inductive CacheEv where
+  | keep | put | del
+  deriving Repr, DecidableEq
+
+structure StepOut where
+  res : Result
+  resumed : Bool
+  ev : CacheEv
+  cache : Option Sess
+  deriving Repr, DecidableEq
+
+/-- a failed handshake: the client throws the presented session away (RFC 5077 §3.2), otherwise leaves the cache alone -/
+def failedWith (presented cache : Option Sess) : StepOut :=
+  match presented with
+  | some _ => { res := .fail, resumed := false, ev := .del, cache := none }
+  | none => { res := .fail, resumed := false, ev := .keep, cache := cache }
+
+/-- a completed handshake in which the server issued a (new) ticket under its first key, or did not -/
+def completed (o : Outcome) (resumed issue : Bool) (tkeys : Option (List Nat)) (cache : Option Sess) : StepOut :=
+  match issue, tkeys with
+  | true, some (k0 :: _) => { res := .done o, resumed, ev := .put, cache := some { vers := o.vers, suite := o.suite, key := k0 } }
+  | _, _ => { res := .done o, resumed, ev := .keep, cache := cache }
+
+/-- `negotiate` with the resumption decision at the place where the handshakes take it -/
+def connect (k : Conn) (cache : Option Sess) : StepOut :=
+  let c := k.c
+  let s := k.s
+  let cv := configVersions supportedVersions c.minV c.maxV
+  let sv := configVersions supportedVersions s.minV s.maxV
+  if cv.isEmpty then { res := .fail, resumed := false, ev := .keep, cache := cache } else   -- makeClientHello fails first
+  let offer := clientOffer cv c.suites c.force
+  let presented := loadSession cv offer k.useCache cache
+  match mutualVersion sv cv with
+  | none => failedWith presented cache
+  | some v =>
+    let helloVers := min (maxSupported cv) VersionTLS12
+    let scsvBad := offer.contains fallbackSCSV &&
+      (if v == VersionTLS13 then v < maxSupported sv else helloVers < maxSupported sv)
+    let alpn := if c.alpn.isEmpty then none else mutualProtocol c.alpn s.alpn
+    let cc := curvesOf c.curves
+    let sc := curvesOf s.curves
+    let ticketsOn := k.tkeys.isSome
+    if v == VersionTLS13 then
+      if scsvBad then failedWith presented cache else
+      match pickTLS13 offer s.prefer with
+      | none => { res := .unmodelled, resumed := false, ev := .keep, cache := cache }
+      | some none => failedWith presented cache
+      | some (some id) =>
+        if sc.any (fun g => cc.contains g) then
+          -- loadSession announces psk_dhe_ke whenever a cache is configured and TLS 1.3 is the top version
+          let pskMode := k.useCache && maxSupported cv == VersionTLS13
+          completed { vers := v, suite := id, alpn, canary := .none }
+            (checkResume13 id pskMode k.tkeys presented) (ticketsOn && pskMode) k.tkeys cache
+        else failedWith presented cache
+    else
+      let ecdheOk := cc.any (fun g => sc.contains g)
+      let f := facts v s.key ecdheOk
+      let seen := match s.rand with
+        | .none => serverCanary (maxSupported sv) v
+        | x => x
+      match checkResume12 v offer s.suites f k.tkeys presented with
+      | some (r, usedOldKey) =>
+        -- abbreviated handshake: pickCipherSuite (and its FALLBACK_SCSV test) and the key exchange are skipped
+        if clientAborts (maxSupported cv) v seen then failedWith presented cache
+        else completed { vers := v, suite := r.id, alpn, canary := seen } true usedOldKey k.tkeys cache
+      | none =>
+        match pickCipherSuite offer s.suites s.prefer f with
+        | .unmodelled => { res := .unmodelled, resumed := false, ev := .keep, cache := cache }
+        | .noSuite => failedWith presented cache
+        | .suite r =>
+          if scsvBad then failedWith presented cache else
+          if !exchangeWorks r s.key v then failedWith presented cache else
+          if clientAborts (maxSupported cv) v seen then failedWith presented cache
+          else completed { vers := v, suite := r.id, alpn, canary := seen } false (ticketsOn && k.useCache) k.tkeys cache
+
+/-- a sequence of connections through one client session cache -/
+def runSeq (cache : Option Sess) : List Conn → List StepOut
+  | [] => []
+  | k :: ks => let o := connect k cache; o :: runSeq o.cache ks
+
 end ZV.C24
